@@ -169,6 +169,8 @@ pub struct Delivery { pub performative: Transfer, pub bytes: Ghost<Seq<u8>>, pub
 pub trait PayloadSrc: Sized { spec fn src_bytes(&self) -> Seq<u8>; }
 impl PayloadSrc for Vec<Payload> { open spec fn src_bytes(&self) -> Seq<u8> { concat(self@) } }
 impl<'a> PayloadSrc for &'a Payload { open spec fn src_bytes(&self) -> Seq<u8> { (*self)@ } }
+#[verifier::external_body]
+pub fn tags_equal(a: &DeliveryTag, b: &DeliveryTag) -> (r: bool) ensures r == (*a == *b) { unimplemented!() }
 pub struct LinkS { pub notes: Ghost<Seq<(DeliveryTag, u32, u64)>>, pub told: Ghost<Seq<Option<DeliveryTag>>> }
 impl LinkS {
     /// ReceiverLink::on_transfer_state: records the state of the delivery with that tag in the link's unsettled map; its first statement refuses an absent tag (DeliveryTagIsNone).
@@ -235,9 +237,25 @@ impl ReceiverInner {
             final(self).credit_checks@ == old(self).credit_checks@ + 1, final(self).credit_mode == old(self).credit_mode,
     { unimplemented!() }
 
-    #[verifier::external_body]
-    fn on_resuming_transfer(&mut self, transfer: Transfer, payload: Payload) -> (r: Result<Option<Delivery>, RecvError>)
-    { unimplemented!() }
+//@@ fn file=fe2o3-amqp/src/link/receiver.rs impl=`~impl<L>ReceiverInner<L>where` name=on_resuming_transfer
+//@@ generics
+//@@ nowhere
+//@@ subst `Delivery<T>` => `Delivery` rule=R7
+//@@ subst `self.dispose(&delivery, None, Accepted {}.into())` => `self.dispose_accept(&delivery)` rule=R16
+//@@ subst `remote != local` => `!tags_equal(remote, local)` rule=R14
+//@@ spec
+    requires
+        old(self).wf(), old(self).buffered().len() + payload@.len() < 0x1_0000_0000,     // ASSUMED: a delivery buffers fewer than 2^32 bytes
+    ensures
+        ({
+            let other = transfer.delivery_tag is Some && old(self).incomplete_transfer is Some && old(self).incomplete_transfer->Some_0.performative.delivery_tag is Some
+                && transfer.delivery_tag->Some_0 != old(self).incomplete_transfer->Some_0.performative.delivery_tag->Some_0;
+            &&& other ==> final(self).incomplete_transfer == old(self).incomplete_transfer
+                    && (r is Ok ==> r->Ok_0 is Some && r->Ok_0->Some_0.bytes@ =~= payload@ && r->Ok_0->Some_0.performative == transfer)     // [C10.resume.other-delivery-not-spliced] a resuming transfer that names ANOTHER delivery than the partly received one is delivered on its own, from its own payload: nothing of the buffered delivery is spliced into it, and the buffered delivery is not disturbed
+            &&& !other ==> final(self).incomplete_transfer is None
+                    && (r is Ok ==> r->Ok_0 is Some && r->Ok_0->Some_0.bytes@ =~= old(self).buffered() + payload@)                           // [C10.resume.same-delivery-completed] ... one that names the buffered delivery (or names none) completes it: the message is decoded from everything buffered plus this frame
+        }),
+//@@ end
 
     /// recv_inner (unit RECVLOOP): takes one frame from the link channel and handles it
     #[verifier::external_body]
